@@ -13,6 +13,7 @@ import (
 	topoapi "github.com/onosproject/onos-api/go/onos/topo"
 	controllerutils "github.com/onosproject/onos-config/pkg/controller/utils"
 	proposalstore "github.com/onosproject/onos-config/pkg/store/v2/proposal"
+	"github.com/onosproject/onos-config/pkg/utils"
 	pathutils "github.com/onosproject/onos-config/pkg/utils/path"
 	"github.com/onosproject/onos-config/pkg/utils/v2/tree"
 	utilsv2 "github.com/onosproject/onos-config/pkg/utils/v2/values"
@@ -262,6 +263,17 @@ func (r *Reconciler) reconcileValidate(ctx context.Context, proposal *configapi.
 		case *configapi.Proposal_Change:
 			rollbackIndex = config.Index
 			rollbackValues = make(map[string]*configapi.PathValue)
+			// A delete removes the values beneath its path as well: remember them, so that a rollback restores them
+			for _, changeValue := range details.Change.Values {
+				if !changeValue.Deleted {
+					continue
+				}
+				for path, configValue := range config.Values {
+					if _, ok := details.Change.Values[path]; !ok && !configValue.Deleted && utils.IsPathOrDescendant(path, changeValue.Path) {
+						rollbackValues[path] = configValue
+					}
+				}
+			}
 			for _, path := range deletesFirst(details.Change.Values) {
 				changeValue := details.Change.Values[path]
 				deletedParentPath, deletedParentValue := applyChangeToConfig(changeValues, path, changeValue)
